@@ -357,6 +357,9 @@ theorem classify_ident (s : List Char) (c : Char) (r : List Char) (hl : lowerL s
 
 /-! ### `fnmatch` patterns -/
 
+theorem globK_nil : globK 0 [] = fun x => x.isEmpty := by
+  funext x; simp [globK]
+
 /-- `*` matches every name -/
 theorem globMatch_star (s : List Char) : globMatch ['*'] s = true := by
   have h : ∀ s : List Char, anySuffix (fun x => x.isEmpty) s = true := by
@@ -364,39 +367,53 @@ theorem globMatch_star (s : List Char) : globMatch ['*'] s = true := by
     induction s with
     | nil => simp [anySuffix]
     | cons d t ih => simp [anySuffix, ih]
-  simp [globMatch, h]
+  simp [globMatch, globK, h]
 
-def Literal (p : List Char) : Prop := ∀ c ∈ p, c ≠ '*' ∧ c ≠ '?' ∧ c ≠ '\\'
+/-- no meta character of `fnmatch` (fourth round: `[` opens a bracket expression) -/
+def Literal (p : List Char) : Prop := ∀ c ∈ p, c ≠ '*' ∧ c ≠ '?' ∧ c ≠ '\\' ∧ c ≠ '['
+
+theorem globK_cons_literal (c : Char) (p s : List Char) (h1 : c ≠ '*') (h2 : c ≠ '?') (h3 : c ≠ '\\')
+    (h4 : c ≠ '[') :
+    globK 0 (c :: p) s = (match s with
+      | [] => false
+      | d :: t => c = d && globK 0 p t) := by
+  rw [globK.eq_def]
+  simp only [h1, h2, h3, h4, if_false]
+  cases s <;> rfl
 
 /-- a pattern without meta characters matches exactly itself -/
-theorem globMatch_literal : ∀ (p s : List Char), Literal p → (globMatch p s = true ↔ s = p)
-  | [], s, _ => by cases s <;> simp [globMatch]
+theorem globK_literal : ∀ (p s : List Char), Literal p → (globK 0 p s = true ↔ s = p)
+  | [], s, _ => by cases s <;> simp [globK]
   | c :: p, s, h => by
-    obtain ⟨h1, h2, h3⟩ := h c List.mem_cons_self
+    obtain ⟨h1, h2, h3, h4⟩ := h c List.mem_cons_self
     have hp : Literal p := fun d hd => h d (List.mem_cons_of_mem _ hd)
-    rw [globMatch.eq_def]
-    simp only [h1, h2, h3, if_false]
+    rw [globK_cons_literal c p s h1 h2 h3 h4]
     cases s with
     | nil => simp
     | cons d t =>
       simp only [Bool.and_eq_true, decide_eq_true_eq, List.cons.injEq]
-      rw [globMatch_literal p t hp]
+      rw [globK_literal p t hp]
       constructor
       · rintro ⟨rfl, rfl⟩; exact ⟨rfl, rfl⟩
       · rintro ⟨rfl, rfl⟩; exact ⟨rfl, rfl⟩
 
+theorem globMatch_literal (p s : List Char) (h : Literal p) : globMatch p s = true ↔ s = p :=
+  globK_literal p s h
+
 /-- `PREFIX*` matches exactly the names that start with `PREFIX` -/
-theorem globMatch_prefix_star : ∀ (p s : List Char), Literal p → (globMatch (p ++ ['*']) s = true ↔ p <+: s)
-  | [], s, _ => by simp [globMatch_star]
+theorem globK_prefix_star : ∀ (p s : List Char), Literal p → (globK 0 (p ++ ['*']) s = true ↔ p <+: s)
+  | [], s, _ => by simpa [globMatch] using globMatch_star s
   | c :: p, s, h => by
-    obtain ⟨h1, h2, h3⟩ := h c List.mem_cons_self
+    obtain ⟨h1, h2, h3, h4⟩ := h c List.mem_cons_self
     have hp : Literal p := fun d hd => h d (List.mem_cons_of_mem _ hd)
-    rw [List.cons_append, globMatch.eq_def]
-    simp only [h1, h2, h3, if_false]
+    rw [List.cons_append, globK_cons_literal c _ s h1 h2 h3 h4]
     cases s with
     | nil => simp
     | cons d t =>
       simp only [Bool.and_eq_true, decide_eq_true_eq]
-      rw [globMatch_prefix_star p t hp, List.cons_prefix_cons]
+      rw [globK_prefix_star p t hp, List.cons_prefix_cons]
+
+theorem globMatch_prefix_star (p s : List Char) (h : Literal p) : globMatch (p ++ ['*']) s = true ↔ p <+: s :=
+  globK_prefix_star p s h
 
 end OpmVerif.Act
